@@ -251,10 +251,13 @@ def _after_exclusion_loop(idx, m, x, attr):
     return False
 
 
-def rule_d(ctx, idx, A):
+def rule_d(ctx, idx, A, rule="C14.d"):
     """Validation reads attributes of referenced commands before anything runs (before the re-entry guard can fire):
     they must not recurse along references."""
-    ctx.rule("C14.d", "What validation reads on a referenced command (is_fuzzy, output, ... in ResultParameter.clean) is plain data: no command class turns such an attribute into a property or method that follows its own references to the same attribute of other commands — in a reference cycle that recursion has no re-entry guard and overflows the stack instead of reporting the cycle.")
+    if rule != "C14.d":
+        ctx.rule(rule, "What validation reads on a referenced command (is_fuzzy, output, ...) is evaluated in the pre-pass of Program.run, outside Command.run's error wrapper: a command class that computes such an attribute must not recurse along references (RecursionError) nor use a raw, uncleaned argument as a dictionary key or in an operation that can raise (TypeError for a list) - whatever escapes there is not an MPilot error.")
+    else:
+        ctx.rule("C14.d", "What validation reads on a referenced command (is_fuzzy, output, ... in ResultParameter.clean) is plain data: no command class turns such an attribute into a property or method that follows its own references to the same attribute of other commands — in a reference cycle that recursion has no re-entry guard and overflows the stack instead of reporting the cycle.")
     rp = idx.cls("mpilot.params", "ResultParameter")
     clean = rp.methods.get("clean") if rp else None
     if clean is None:
@@ -284,7 +287,24 @@ def rule_d(ctx, idx, A):
             if follows:
                 follows = [x for x in follows if not _after_exclusion_loop(idx, m, x, attr)]
             con = "%s::computed(%s)" % (d.key, attr)
-            ctx.ob("C14.d", con, d.module.rel, m.node.lineno, not follows,
+            if rule != "C14.d" and not follows:
+                # raw argument values used as keys / receivers without a kind test first
+                raws = {t.id for st in own_nodes(m.node) if isinstance(st, ast.Assign) and isinstance(st.value, ast.Call) and isinstance(st.value.func, ast.Attribute) and st.value.func.attr == "get_argument_value"
+                        for t in st.targets if isinstance(t, ast.Name)}
+                cfg_ = K.cfg_of(idx, m)
+                bad_use = None
+                for c_ in cfg_.find("call"):
+                    f_ = c_.ast.func
+                    if isinstance(f_, ast.Attribute) and f_.attr in ("get", "__getitem__", "pop") and c_.ast.args and isinstance(c_.ast.args[0], ast.Name) and c_.ast.args[0].id in raws:
+                        nm_ = c_.ast.args[0].id
+                        guards_ = [t for t in cfg_.find("test") if isinstance(t.ast, ast.Call) and isinstance(t.ast.func, ast.Name) and t.ast.func.id == "isinstance" and t.ast.args and isinstance(t.ast.args[0], ast.Name) and t.ast.args[0].id == nm_
+                                   and cfg_.dominates(t, c_) and K.holds_on_edge(cfg_, t, c_, "true")]
+                        if not guards_:
+                            bad_use = c_
+                if bad_use is not None:
+                    ctx.violate(rule, con, d.module.rel, bad_use.line, "`%s` of %s looks a raw argument value up as a key (`%s`) during validation, before that argument was cleaned: a list written there is unhashable and the TypeError escapes from Program.run's pre-pass, outside Command.run's wrapper" % (attr, d.cls.name, K.src(bad_use.ast)[:60]))
+                    continue
+            ctx.ob(rule, con, d.module.rel, m.node.lineno, not follows,
                    "`%s` is computed without consulting other commands" % attr if not follows else
                    "`%s` of %s is computed from the `%s` of the command it references (%s): validation reads it before anything runs, so in a cycle of such commands the recursion never reaches the re-entry guard and ends in RecursionError instead of %s" % (attr, d.cls.name, attr, K.src(follows[0])[:60], ERR))
     ctx.extra["validation_reads"] = sorted(read)
@@ -336,6 +356,55 @@ def rule_g(ctx, idx, A):
     ctx.count("recursive_graph_walks", n)
 
 
+def rule_h(ctx, idx, A):
+    ctx.rule(
+        "C14.h",
+        "Re-entry reaches the guard: on the way from a result access to execute no non-reentrant lock (threading.Lock, a Semaphore, "
+        "a Condition built on one) is held while the command is evaluated. A command on a cycle asks for its own result again on "
+        "the same thread; with such a lock held that request blocks forever, so the program neither raises the recursive-model error "
+        "nor returns.",
+    )
+    n_with = 0
+    blocking = {"threading.Lock", "_thread.allocate_lock", "threading.Semaphore", "threading.BoundedSemaphore", "multiprocessing.Lock", "threading.Condition"}
+    held_attrs = {}
+    for m in A.command.methods.values():
+        for n in own_nodes(m.node):
+            if isinstance(n, ast.Assign) and isinstance(n.value, ast.Call):
+                q = idx.qualname(m.module, n.value.func, m) or ""
+                if q in blocking and not (q == "threading.Condition" and n.value.args):
+                    for t in n.targets:
+                        if isinstance(t, ast.Attribute):
+                            held_attrs[t.attr] = q
+    for st in A.command.node.body:
+        if isinstance(st, ast.Assign) and isinstance(st.value, ast.Call) and (idx.qualname(A.command.module, st.value.func) or "") in blocking:
+            for t in st.targets:
+                if isinstance(t, ast.Name):
+                    held_attrs[t.id] = idx.qualname(A.command.module, st.value.func)
+    reach, _p = idx.reachable([A.run])
+    for m in A.command.methods.values():
+        for n in own_nodes(m.node):
+            if not isinstance(n, (ast.With,)):
+                continue
+            n_with += 1
+            for item in n.items:
+                e = item.context_expr
+                if isinstance(e, ast.Attribute) and e.attr in held_attrs:
+                    evaluates = any(isinstance(c, ast.Call) and isinstance(c.func, ast.Attribute) and c.func.attr in ("run", "execute") for b in n.body for c in ast.walk(b)) \
+                        or any(isinstance(c, ast.Attribute) and c.attr == "result" and isinstance(c.ctx, ast.Load) for b in n.body for c in ast.walk(b))
+                    con = "%s::lock-held-across-evaluation(%s)" % (m.key, e.attr)
+                    ctx.ob("C14.h", con, K.rel(m), n.lineno, not evaluates,
+                           "the lock does not span the evaluation" if not evaluates else
+                           "`with %s:` (a %s, not re-entrant) is held while the command is evaluated: a command on a reference cycle that was itself started through `.result` asks for its own result again on the same thread and blocks forever - the run neither raises %s nor returns" % (K.src(e), held_attrs[e.attr], ERR))
+        for n in own_nodes(m.node):
+            if isinstance(n, ast.Call) and isinstance(n.func, ast.Attribute) and n.func.attr == "acquire" and isinstance(n.func.value, ast.Attribute) and n.func.value.attr in held_attrs:
+                ctx.violate("C14.h", "%s::lock-held-across-evaluation(%s)" % (m.key, n.func.value.attr), K.rel(m), n.lineno,
+                            "`%s` takes a %s inside the command's own evaluation path: a second request from the same thread (a reference cycle) blocks forever instead of reaching the re-entry guard" % (K.src(n), held_attrs[n.func.value.attr]))
+    ctx.count("with_blocks_in_Command", n_with)
+    ctx.count("blocking_lock_attributes", len(held_attrs))
+    if not held_attrs:
+        ctx.hold("C14.h", "%s::no-blocking-lock" % A.command.qual, K.rel(A.run), A.command.node.lineno, "Command creates no non-reentrant lock", nontrivial=False)
+
+
 def rule_f(ctx, idx, A):
     ctx.rule(
         "C14.f",
@@ -378,6 +447,7 @@ def run(ctx, idx):
     rule_d(ctx, idx, A)
     rule_g(ctx, idx, A)
     rule_f(ctx, idx, A)
+    rule_h(ctx, idx, A)
     from .C01 import rule_e
 
     rule_e(ctx, idx, A, rule="C14.e", text="Restated here because the re-entry guard can only fire on a reference that is actually read: a cycle closed through an input the consumer skips (a zero weight, a short-circuit over the list) is never entered and the cyclic model runs to completion.")
